@@ -104,6 +104,19 @@ macro_rules! hash {
     }};
 }
 
+// which Machine the dispatch macros hand out in THIS configuration (the macro is expanded in this crate,
+// so vprobe declares a `std` feature of its own that the driver switches together with the others)
+#[macro_use]
+extern crate ppv_lite86;
+#[allow(unused_imports)]
+use ppv_lite86::Machine;
+dispatch!(m, Mach, {
+    fn dispatched_machine() -> &'static str {
+        let _ = m;
+        core::any::type_name::<Mach>()
+    }
+});
+
 fn main() {
     let args: Vec<String> = std::env::args().collect();
     std::panic::set_hook(Box::new(|_| {}));
@@ -142,7 +155,7 @@ fn main() {
     let taken: Vec<usize> = vec![];
     let q = |v: &Vec<String>| format!("[{}]", v.iter().take(12).map(|s| format!("\"{}\"", s.replace('"', "'").replace('\\', "/"))).collect::<Vec<_>>().join(","));
     println!(
-        "{{\"cases\":{},\"fingerprint\":\"{:016x}\",\"n_mismatches\":{},\"n_panics\":{},\"mismatches\":{},\"panics\":{},\"forced\":{},\"taken\":{:?}}}",
-        o.cases, o.fp, o.mism.len(), o.panics.len(), q(&o.mism), q(&o.panics), forced, taken
+        "{{\"cases\":{},\"fingerprint\":\"{:016x}\",\"n_mismatches\":{},\"n_panics\":{},\"mismatches\":{},\"panics\":{},\"forced\":{},\"taken\":{:?},\"machine\":\"{}\"}}",
+        o.cases, o.fp, o.mism.len(), o.panics.len(), q(&o.mism), q(&o.panics), forced, taken, dispatched_machine()
     );
 }
